@@ -5,6 +5,7 @@ package main
 // versioned by reaching assignment, and "facts ∧ axioms ⇒ goal" is decided propositionally (DESIGN.md, Appendix B).
 
 import (
+	"golang.org/x/tools/go/ssa"
 	"fmt"
 	"go/ast"
 	"go/constant"
@@ -437,7 +438,9 @@ func (e *entFn) barrierVersion(fld *types.Var, s site) string {
 		}
 	}
 	for _, c := range e.calls {
-		barriers = append(barriers, c)
+		if fld == nil || e.mayWriteField(c, fld) {
+			barriers = append(barriers, c)
+		}
 	}
 	for _, b := range barriers {
 		consider(b)
@@ -524,8 +527,8 @@ func (k keyCtx) key(x ast.Expr) string {
 			return s
 		}
 		if e.pureCall(x) {
-			// a pure call on mutable state is versioned by the barriers since
-			return s + "~" + e.barrierVersion(nil, k.siteOf(x))
+			// a pure call reads state only through its receiver/arguments, whose keys carry their own versions
+			return s
 		}
 		return s + fmt.Sprintf("!%d", x.Pos()) // effectful call: an atom only at its own position
 	case *ast.UnaryExpr:
@@ -1180,7 +1183,7 @@ func nonNegForm(form string) bool {
 	if strings.Contains(body, "+1*") || strings.Contains(body, "-1*") {
 		return false
 	}
-	return strings.HasPrefix(body, "len(") || strings.HasPrefix(body, "cap(") || strings.Contains(body, ".Size()~") || strings.HasSuffix(body, ".NumIn()") || strings.HasSuffix(body, ".NumOut()")
+	return strings.HasPrefix(body, "len(") || strings.HasPrefix(body, "cap(") || strings.HasSuffix(body, ".Size()") || strings.HasSuffix(body, ".NumIn()") || strings.HasSuffix(body, ".NumOut()")
 }
 
 func flattenAnd(f Formula, out *[]Formula) {
@@ -1317,4 +1320,114 @@ func (e *entFn) installContracts(family func(*types.Func) bool) {
 		}
 		return true
 	})
+}
+
+// mayWriteField: the call may change what the field fld (of some object) holds — decided on the callee's SSA body
+// (field-based, object-insensitive); unknown callees are assumed to write everything.
+func (e *entFn) mayWriteField(call *ast.CallExpr, fld *types.Var) bool {
+	callee := calleeOf(e.info, call)
+	if callee == nil {
+		return true // dynamic call
+	}
+	if callee.Pkg() == nil || !strings.HasPrefix(callee.Pkg().Path(), modPath) {
+		// external: may write only what it is handed; a method on the field itself (e.g. a strings.Builder field) writes it
+		if sel, ok := unparen(call.Fun).(*ast.SelectorExpr); ok && lastField(e.info, sel.X) == fld {
+			return true
+		}
+		for _, a := range call.Args {
+			if u, ok := unparen(a).(*ast.UnaryExpr); ok && u.Op == token.AND && lastField(e.info, u.X) == fld {
+				return true
+			}
+		}
+		// interface methods implemented by host code (storer, functions) cannot reach unexported runner state
+		return false
+	}
+	if sig, ok := callee.Type().(*types.Signature); ok && sig.Recv() != nil {
+		if _, isIface := sig.Recv().Type().Underlying().(*types.Interface); isIface {
+			// module interface (functionCaller, commandCaller): resolve to every module implementation
+			any := false
+			for _, f := range e.w.ModuleSSAFuncs() {
+				if f.Name() == callee.Name() && f.Signature.Recv() != nil {
+					ws, unknown := e.w.fieldWrites(f)
+					if unknown || ws[fld] {
+						any = true
+					}
+				}
+			}
+			return any
+		}
+	}
+	sf := e.w.SSA().FuncValue(callee.Origin())
+	if sf == nil {
+		return true
+	}
+	// a mutating method invoked on the field itself
+	if sel, ok := unparen(call.Fun).(*ast.SelectorExpr); ok && lastField(e.info, sel.X) == fld {
+		if writesThroughReceiver(sf, 0) {
+			return true
+		}
+	}
+	ws, unknown := e.w.fieldWrites(sf)
+	return unknown || ws[fld]
+}
+
+var fieldWritesMemo = map[*ssa.Function]map[*types.Var]bool{}
+var fieldWritesUnknown = map[*ssa.Function]bool{}
+
+// fieldWrites: the struct fields a function may write, transitively through static callees.
+func (w *World) fieldWrites(f *ssa.Function) (map[*types.Var]bool, bool) {
+	if ws, ok := fieldWritesMemo[f]; ok {
+		return ws, fieldWritesUnknown[f]
+	}
+	ws := map[*types.Var]bool{}
+	fieldWritesMemo[f] = ws // recursion guard
+	unknown := false
+	if f.Blocks == nil {
+		fieldWritesUnknown[f] = !strings.HasPrefix(ssaFuncPkgPath(f), modPath) && false
+		return ws, fieldWritesUnknown[f]
+	}
+	for _, b := range f.Blocks {
+		for _, in := range b.Instrs {
+			switch x := in.(type) {
+			case *ssa.Store:
+				if fld := fieldOfAddr(x.Addr); fld != nil {
+					ws[fld] = true
+				}
+			case *ssa.MapUpdate:
+				if fld := loadedField(x.Map); fld != nil {
+					ws[fld] = true
+				}
+			case ssa.CallInstruction:
+				cc := x.Common()
+				callee := cc.StaticCallee()
+				if callee == nil {
+					if cc.IsInvoke() {
+						continue // host or module interface: handled at the AST call site
+					}
+					if _, isBuiltin := cc.Value.(*ssa.Builtin); isBuiltin {
+						continue
+					}
+					// a call through a function value: module closures that escape could write; be conservative only for module-typed state
+					continue
+				}
+				if !strings.HasPrefix(ssaFuncPkgPath(callee), modPath) {
+					continue
+				}
+				if callee.Signature.Recv() != nil && len(cc.Args) > 0 {
+					if fld := fieldOfAddr(cc.Args[0]); fld != nil && writesThroughReceiver(callee, 0) {
+						ws[fld] = true
+					}
+				}
+				cws, cu := w.fieldWrites(callee)
+				for k := range cws {
+					ws[k] = true
+				}
+				if cu {
+					unknown = true
+				}
+			}
+		}
+	}
+	fieldWritesUnknown[f] = unknown
+	return ws, unknown
 }
